@@ -63,6 +63,13 @@ def tricky_clean():
         ([("alt", [A, B])], [("A", "", ("seq", [L("a"), Cn])), ("B", "", ("seq", [L("b"), Cn])), ("C", "", ("opt", D)), ("D", "", L("d"))]),
         ([A], [("A", "", ("seq", [("sub", [L("--in="), B]), ("sub", [L("--out="), B])])), ("B", "", ("alt", [L("json"), L("yaml")]))]),
     ]
+    # ill-formed (the specification decides): the blank sits after a nested group / an inlined definition whose LAST item is a literal
+    # and whose first item is not one
+    out += [
+        ([("sub", [L("--opt="), ("seq", [("seq", [("alt", [L("x"), L("y")]), L("b")]), L("c")])])], []),
+        ([("sub", [L("--opt="), A])], [("A", "", ("seq", [B, L("c")])), ("B", "", ("seq", [("alt", [L("x"), L("y")]), L("b")]))]),
+        ([("seq", [L("go"), ("sub", [L("--level="), A]), ("opt", L("-v"))])], [("A", "", ("seq", [B, L("high")])), ("B", "", ("seq", [C("echo 1"), L("low")]))]),
+    ]
     return out
 
 
